@@ -413,7 +413,7 @@ fn gen_since(r: &mut Rng, cx: &SpecCtx, info: &Option<Info>) -> u64 {
             }
             (2, true, Some(i)) => {
                 let mt = cx.median(cx.parent_pos()) as u128;
-                let base = if cx.commit_epoch_number() >= cx.rfc0028 { cx.chain.ts[i.pos] } else { cx.median(i.pos - 1) } as u128;
+                let base = if cx.commit_epoch_number() >= cx.rfc0028 { cx.chain.ts[i.pos] } else { cx.median(i.pos.max(1) - 1) } as u128;
                 let up = r.below(2) as u128 * 999;
                 near(r, (mt.saturating_sub(base) + up) / 1000)
             }
